@@ -5,7 +5,7 @@ from ..index import AnalysisError, dotted
 from ..astutil import text, short, endswith, calls_in, walk_no_nested
 from ..callgraph import CallGraph
 from ..ordertaint import Analysis, REDUCERS, key_is_injective, key_has_element
-from ._h_F import Res, res_of, iterations, aliases_of, strip_wrappers, call_arg, absent
+from ._h_F import ifn, Res, res_of, iterations, aliases_of, strip_wrappers, call_arg, absent
 
 EXPLANATION = (
   "Order-taint analysis: iteration order of set-typed values (hash-seed / object-identity "
@@ -170,7 +170,7 @@ def _sorted_calls(fn):
 def r4_schedule(run, w):
   R4 = run.rule("C30-R4", "work items are ordered by a total order on nodes (lookups first)",
                 floor=1)
-  fn = w.fn("engine.Engine._make_sorted_work_items")
+  fn = ifn(w, "engine.Engine._make_sorted_work_items")
   r = res_of(w, fn)
   p = fn.fi.params()[1]
   # the nodes handed in reach the work items only through a sort whose key contains the node
@@ -213,6 +213,17 @@ def _defs(fnode, name):
                                                for t in n.targets)]
 
 
+def _outside_sorted(e, pred):
+  """Does a sub-expression satisfying pred occur in e other than inside the operand of a
+  sorted(...) call (or of an order-insensitive reducer)?"""
+  if pred(e):
+    return True
+  if isinstance(e, ast.Call) and dotted(e.func) in REDUCERS and e.args:
+    return any(_outside_sorted(a, pred) for a in e.args[1:]) or \
+        any(_outside_sorted(k.value, pred) for k in e.keywords)
+  return any(_outside_sorted(ch, pred) for ch in ast.iter_child_nodes(e))
+
+
 def _inside(root, node):
   return any(x is node for x in ast.walk(root))
 
@@ -220,7 +231,7 @@ def _inside(root, node):
 def r5_sorted_flush(run, w):
   R5 = run.rule("C30-R5", "calc deltas become actions in sorted (table, column, row) order; "
                 "auto-removals are applied in sorted order", floor=3)
-  fn = w.fn("action_summary.ActionSummary.convert_deltas_to_actions")
+  fn = ifn(w, "action_summary.ActionSummary.convert_deltas_to_actions")
   r = res_of(w, fn)
   # every loop from which the per-column conversion is reached iterates a sorted(...) value
   conv = [c for (n, c, nm) in fn.calls() if endswith(nm, "self._changes_to_actions")]
@@ -237,7 +248,7 @@ def r5_sorted_flush(run, w):
   run.ob(R5, fn.qualname, "for table_id in sorted(...): for col_id in sorted(...)",
          "calc actions are emitted by table then column name", ok, fi=fn.fi)
   # rows of one column delta: every iteration over the delta dict feeds a sorted(...)
-  fn = w.fn("action_summary.ActionSummary._changes_to_actions")
+  fn = ifn(w, "action_summary.ActionSummary._changes_to_actions")
   r = res_of(w, fn)
   dp = fn.fi.params()[3]
   names = aliases_of(r, dp)
@@ -277,7 +288,7 @@ def r5_sorted_flush(run, w):
     ok = ok and fed
   run.ob(R5, fn.qualname, "full_row_ids = sorted(...)", "rows inside a calc action are in row id "
          "order", ok and n_it >= 1, fi=fn.fi)
-  fn = w.fn("docmodel.DocModel.apply_auto_removes")
+  fn = ifn(w, "docmodel.DocModel.apply_auto_removes")
   r = res_of(w, fn)
   # every iteration over / copy of the auto-remove set goes through sorted()
   ok = False
@@ -287,8 +298,7 @@ def r5_sorted_flush(run, w):
   for (it, tg, body, owner) in iterations(fn.node):
     at = r.node_of_expr(it)
     t = r.expand(it, at[0].id) if at else it
-    if "_auto_remove_set" in text(t) and not (isinstance(t, ast.Call) and
-                                               dotted(t.func) == "sorted"):
+    if _outside_sorted(t, lambda x: isinstance(x, ast.Attribute) and x.attr == "_auto_remove_set"):
       ok = False
   run.ob(R5, fn.qualname, "gone_records = sorted(self._auto_remove_set, ...)",
          "auto-removals happen in a deterministic order", ok, fi=fn.fi)
